@@ -11,6 +11,8 @@ class Func:
         self.r = rec
         self.name = rec["name"]
         self.inst = rec.get("inst", rec["name"])
+        self.sig = rec.get("sig", "")
+        self.node = self.inst + self.sig
         self.loc = rec["loc"]
         self.blocks = {b["id"]: b for b in rec["blocks"]}
         for b in rec["blocks"]:
